@@ -80,10 +80,50 @@ func fieldImpls(c *Ctx) []*fieldImpl {
 	return out
 }
 
+// unitFns: fn together with the helper functions of its own package it (transitively) calls — a method split into
+// helpers is still one unit of template code.
+func unitFns(u *Universe, fn *ssa.Function) []*ssa.Function {
+	if fn == nil {
+		return nil
+	}
+	out := []*ssa.Function{fn}
+	seen := map[*ssa.Function]bool{fn: true}
+	for i := 0; i < len(out) && i < 12; i++ {
+		for _, b := range out[i].Blocks {
+			for _, ins := range b.Instrs {
+				if call, ok := ins.(ssa.CallInstruction); ok {
+					if sc := call.Common().StaticCallee(); sc != nil && !seen[sc] && sc.Blocks != nil && sc.Synthetic == "" && u.pkgPathOf(sc) == u.pkgPathOf(fn) {
+						seen[sc] = true
+						out = append(out, sc)
+					}
+				}
+			}
+		}
+	}
+	return out
+}
+
+func putCallsU(u *Universe, fn *ssa.Function) []*ssa.Call {
+	var out []*ssa.Call
+	for _, f := range unitFns(u, fn) {
+		out = append(out, putCalls(f)...)
+	}
+	return out
+}
+
+func callsToU(u *Universe, fn *ssa.Function, full string) []*ssa.Call {
+	var out []*ssa.Call
+	for _, f := range unitFns(u, fn) {
+		out = append(out, callsTo(f, full)...)
+	}
+	return out
+}
+
 func isLE(v ssa.Value) bool { return strings.Contains(symExpr(v, 0), "binary.LittleEndian") }
 
 // isValsElem: v is an element of the receiver's vals slice (load of &vals[i]).
 func (f *fieldImpl) isValsElem(v ssa.Value) bool {
+	v = throughParams(v)
 	ld, ok := v.(*ssa.UnOp)
 	if !ok || ld.Op != token.MUL {
 		return false
@@ -92,7 +132,7 @@ func (f *fieldImpl) isValsElem(v ssa.Value) bool {
 	if !ok {
 		return false
 	}
-	return fieldOfLoad(ia.X) == f.vals
+	return fieldOfLoad(throughParams(ia.X)) == f.vals
 }
 
 func laPlain(c *Ctx, rule string) {
@@ -155,7 +195,7 @@ func plainNumeric(c *Ctx, rule, key string, f *fieldImpl) {
 	size := sizeofBasic(f.elem)
 	// writer
 	var bad []string
-	puts := putCalls(f.write)
+	puts := putCallsU(u, f.write)
 	wpos := u.Pos(f.write.Pos())
 	if len(puts) != 1 {
 		bad = append(bad, fmt.Sprintf("%d PutUintNN calls in Write, want 1 per value", len(puts)))
@@ -169,7 +209,7 @@ func plainNumeric(c *Ctx, rule, key string, f *fieldImpl) {
 		if !strings.Contains(p.Call.StaticCallee().String(), "littleEndian") {
 			bad = append(bad, "values are not written little-endian")
 		}
-		if n := fixedBufLen(bs); n != size || bits != 8*size {
+		if n := fixedBufLen(throughParams(bs)); n != size || bits != 8*size {
 			bad = append(bad, fmt.Sprintf("a %s value (%d bytes) is written with %s into a %d-byte buffer", f.elem, size, p.Call.StaticCallee().Name(), n))
 		}
 		conv := "identity"
@@ -199,10 +239,12 @@ func plainNumeric(c *Ctx, rule, key string, f *fieldImpl) {
 		}
 		// the buffer must then be appended to the page buffer
 		written := false
-		for _, ref := range *bs.Referrers() {
-			if call, ok := ref.(*ssa.Call); ok && strings.HasSuffix(fullCalleeName(&call.Call), "ByteBuffer).Write") {
-				if dominatesInstr(p, call) {
-					written = true
+		for _, b := range p.Parent().Blocks {
+			for _, ins := range b.Instrs {
+				if call, ok := ins.(*ssa.Call); ok && strings.HasSuffix(fullCalleeName(&call.Call), "ByteBuffer).Write") && len(call.Call.Args) == 2 {
+					if (call.Call.Args[1] == bs || symExpr(call.Call.Args[1], 0) == symExpr(bs, 0)) && dominatesInstr(p, call) {
+						written = true
+					}
 				}
 			}
 		}
@@ -219,7 +261,7 @@ func plainNumeric(c *Ctx, rule, key string, f *fieldImpl) {
 	// reader
 	bad = nil
 	rpos := u.Pos(f.read.Pos())
-	rds := callsTo(f.read, "encoding/binary.Read")
+	rds := callsToU(u, f.read, "encoding/binary.Read")
 	if len(rds) != 1 {
 		bad = append(bad, fmt.Sprintf("%d binary.Read calls in Read, want 1", len(rds)))
 	} else {
@@ -243,7 +285,7 @@ func plainNumeric(c *Ctx, rule, key string, f *fieldImpl) {
 		}
 		// appended to vals
 		stored := false
-		for _, b := range f.read.Blocks {
+		for _, b := range rd.Parent().Blocks {
 			for _, ins := range b.Instrs {
 				if st, ok := ins.(*ssa.Store); ok && fieldOf(st.Addr) == f.vals {
 					if call, ok := st.Val.(*ssa.Call); ok {
@@ -271,7 +313,7 @@ func plainString(c *Ctx, rule, key string, f *fieldImpl) {
 	r, u := c.R, c.U
 	var bad []string
 	wpos := u.Pos(f.write.Pos())
-	puts := putCalls(f.write)
+	puts := putCallsU(u, f.write)
 	prefix := 0
 	if len(puts) != 1 {
 		bad = append(bad, fmt.Sprintf("%d PutUintNN calls in Write, want 1 (the length prefix)", len(puts)))
@@ -286,8 +328,8 @@ func plainString(c *Ctx, rule, key string, f *fieldImpl) {
 		if !strings.Contains(p.Call.StaticCallee().String(), "littleEndian") {
 			bad = append(bad, "length prefix is not written little-endian")
 		}
-		if fixedBufLen(bs) != prefix {
-			bad = append(bad, fmt.Sprintf("length prefix buffer has %d bytes, %s writes %d", fixedBufLen(bs), p.Call.StaticCallee().Name(), prefix))
+		if fixedBufLen(throughParams(bs)) != prefix {
+			bad = append(bad, fmt.Sprintf("length prefix buffer has %d bytes, %s writes %d", fixedBufLen(throughParams(bs)), p.Call.StaticCallee().Name(), prefix))
 		}
 		// x = uintNN(len(s)) where s is an element of vals
 		v := x
@@ -305,17 +347,17 @@ func plainString(c *Ctx, rule, key string, f *fieldImpl) {
 		}
 		// order: prefix bytes, then the string's bytes
 		var wPrefix, wBody ssa.Instruction
-		for _, b := range f.write.Blocks {
+		for _, b := range p.Parent().Blocks {
 			for _, ins := range b.Instrs {
 				call, ok := ins.(*ssa.Call)
 				if !ok {
 					continue
 				}
 				n := fullCalleeName(&call.Call)
-				if strings.HasSuffix(n, "ByteBuffer).Write") && len(call.Call.Args) == 2 && call.Call.Args[1] == bs {
+				if strings.HasSuffix(n, "ByteBuffer).Write") && len(call.Call.Args) == 2 && (call.Call.Args[1] == bs || symExpr(call.Call.Args[1], 0) == symExpr(bs, 0)) {
 					wPrefix = call
 				}
-				if strings.HasSuffix(n, "ByteBuffer).WriteString") && len(call.Call.Args) == 2 && call.Call.Args[1] == s {
+				if strings.HasSuffix(n, "ByteBuffer).WriteString") && len(call.Call.Args) == 2 && s != nil && (call.Call.Args[1] == s || symExpr(call.Call.Args[1], 0) == symExpr(s, 0)) {
 					wBody = call
 				}
 			}
@@ -332,7 +374,7 @@ func plainString(c *Ctx, rule, key string, f *fieldImpl) {
 	// reader
 	bad = nil
 	rpos := u.Pos(f.read.Pos())
-	rds := callsTo(f.read, "encoding/binary.Read")
+	rds := callsToU(u, f.read, "encoding/binary.Read")
 	if len(rds) != 1 {
 		bad = append(bad, fmt.Sprintf("%d binary.Read calls in Read, want 1 (the length prefix)", len(rds)))
 	} else {
@@ -355,7 +397,7 @@ func plainString(c *Ctx, rule, key string, f *fieldImpl) {
 			}
 			// make([]byte, x); Read into it; string(bytes) appended to vals
 			okBuf, okRead, okApp := false, false, false
-			for _, b := range f.read.Blocks {
+			for _, b := range rd.Parent().Blocks {
 				for _, ins := range b.Instrs {
 					ms, ok := ins.(*ssa.MakeSlice)
 					if !ok {
@@ -378,6 +420,31 @@ func plainString(c *Ctx, rule, key string, f *fieldImpl) {
 						case *ssa.Convert:
 							if flowsToField(y, f.vals.Name(), 0) || storedIntoVarargsThenField(y, f.vals) {
 								okApp = true
+							}
+							// returned by a helper: what the call sites do with the result
+							for _, r2 := range *y.Referrers() {
+								ret, isRet := r2.(*ssa.Return)
+								if !isRet {
+									continue
+								}
+								for ri, rv := range ret.Results {
+									if rv != ssa.Value(y) {
+										continue
+									}
+									for _, cs := range callersOf(rd.Parent()) {
+										cv, isVal := cs.(*ssa.Call)
+										if !isVal {
+											continue
+										}
+										var res ssa.Value = cv
+										if len(ret.Results) > 1 {
+											res = extractOf(cv, ri)
+										}
+										if res != nil && (flowsToField(res, f.vals.Name(), 0) || storedIntoVarargsThenField(res, f.vals)) {
+											okApp = true
+										}
+									}
+								}
 							}
 						}
 					}
@@ -418,7 +485,11 @@ func plainBool(c *Ctx, rule, key string, f *fieldImpl) {
 	var bad []string
 	wpos := u.Pos(f.write.Pos())
 	found := false
-	for _, b := range f.write.Blocks {
+	var wblocks []*ssa.BasicBlock
+	for _, g := range unitFns(u, f.write) {
+		wblocks = append(wblocks, g.Blocks...)
+	}
+	for _, b := range wblocks {
 		for _, ins := range b.Instrs {
 			st, ok := ins.(*ssa.Store)
 			if !ok {
@@ -438,7 +509,7 @@ func plainBool(c *Ctx, rule, key string, f *fieldImpl) {
 			found = true
 			wpos = u.Pos(st.Pos())
 			q, ok := ia.Index.(*ssa.BinOp)
-			if !ok || q.Op != token.QUO || !constIs(q.Y, 8) {
+			if !ok || !((q.Op == token.QUO && constIs(q.Y, 8)) || (q.Op == token.SHR && constIs(q.Y, 3))) {
 				bad = append(bad, "bit for value i is not stored in byte i/8")
 				continue
 			}
@@ -462,17 +533,22 @@ func plainBool(c *Ctx, rule, key string, f *fieldImpl) {
 				k = cv.X
 			}
 			rem, ok := k.(*ssa.BinOp)
-			if !ok || rem.Op != token.REM || !constIs(rem.Y, 8) || rem.X != i {
+			if !ok || !((rem.Op == token.REM && constIs(rem.Y, 8)) || (rem.Op == token.AND && constIs(rem.Y, 7))) || rem.X != i {
 				bad = append(bad, "bit for value i is not bit i%8 (LSB first)")
 			}
 			// guarded by vals[i]
 			okG := guarded(st.Block(), func(iff *ssa.If, truth bool) bool {
-				ld, ok := iff.Cond.(*ssa.UnOp)
-				if !ok || !truth {
+				cond := iff.Cond
+				// `if !vals[i] { continue }`
+				if not, ok := cond.(*ssa.UnOp); ok && not.Op == token.NOT {
+					cond, truth = not.X, !truth
+				}
+				ld, ok := cond.(*ssa.UnOp)
+				if !ok || !truth || ld.Op != token.MUL {
 					return false
 				}
 				ia2, ok := ld.X.(*ssa.IndexAddr)
-				return ok && ia2.Index == i && fieldOfLoad(ia2.X) == f.vals
+				return ok && ia2.Index == i && fieldOfLoad(throughParams(ia2.X)) == f.vals
 			}, 0)
 			if !okG {
 				bad = append(bad, "the bit is not set exactly when vals[i] is true")
@@ -489,7 +565,7 @@ func plainBool(c *Ctx, rule, key string, f *fieldImpl) {
 	}
 	// reader: goes through parquet.GetBools, whose unpacker yields bit k of the byte as element k
 	rpos := u.Pos(f.read.Pos())
-	if len(callsTo(f.read, rtPath+".GetBools")) != 1 {
+	if len(callsToU(u, f.read, rtPath+".GetBools")) != 1 {
 		r.bad(rule, key+" read", rpos, "bool columns are not decoded through parquet.GetBools")
 		return
 	}
@@ -675,7 +751,7 @@ func checkC01(c *Ctx) {
 	runWHChild(c, "WH-child")
 	// level bookkeeping of optional columns: maxima, trimming of padded level streams, chunk descriptors
 	// the instantiated column templates: value counts handed to the page writer, values decoded per chunk
-	runFT(c, "FT", map[string]bool{"count": true, "read": true})
+	runFT(c, "FT", map[string]bool{"count": true, "read": true, "delta": true})
 	runTD(c, "TD", map[string]bool{"write": true, "add": true, "reader": true})
 	laMaxLevels(c, "LA-maxlevels")
 	laTrim(c, "LA-trim")
@@ -782,31 +858,95 @@ func checkC15(c *Ctx) {
 		return
 	}
 	okOpt := false
+	// isOptionalTest: v is true exactly when the element's repetition type is OPTIONAL (= 1) — the comparison itself,
+	// a short-circuit `rt != nil && *rt == OPTIONAL`, or a helper function returning that
+	var isOptionalTest func(v ssa.Value, depth int) bool
+	isOptionalTest = func(v ssa.Value, depth int) bool {
+		if depth > 4 {
+			return false
+		}
+		switch x := v.(type) {
+		case *ssa.BinOp:
+			if x.Op == token.EQL && constIs(x.Y, 1) {
+				if named, ok := x.X.Type().(*types.Named); ok && named.Obj().Name() == "FieldRepetitionType" {
+					return true
+				}
+			}
+		case *ssa.Phi:
+			some := false
+			for _, e := range x.Edges {
+				if constBool(e, false) {
+					continue
+				}
+				if !isOptionalTest(e, depth+1) {
+					return false
+				}
+				some = true
+			}
+			return some
+		case *ssa.Call:
+			sc := x.Call.StaticCallee()
+			if sc == nil || sc.Blocks == nil || !u.InUniverse(sc) && u.pkgPathOf(sc) != genBase+"structs" {
+				return false
+			}
+			some := false
+			for _, b := range sc.Blocks {
+				if ret, ok := lastInstr(b).(*ssa.Return); ok && len(ret.Results) == 1 {
+					if constBool(ret.Results[0], false) {
+						continue
+					}
+					if !isOptionalTest(ret.Results[0], depth+1) {
+						return false
+					}
+					some = true
+				}
+			}
+			return some
+		}
+		return false
+	}
+	isStar := func(v ssa.Value) bool {
+		k, ok := v.(*ssa.Const)
+		return ok && k.Value != nil && k.Value.Kind() == constant.String && constant.StringVal(k.Value) == "*"
+	}
 	for _, b := range fld.Blocks {
 		iff, ok := lastInstr(b).(*ssa.If)
-		if !ok {
+		if !ok || !isOptionalTest(iff.Cond, 0) {
 			continue
 		}
-		bo, ok := iff.Cond.(*ssa.BinOp)
-		if !ok || bo.Op != token.EQL || !constIs(bo.Y, 1) {
-			continue
-		}
-		named, ok := bo.X.Type().(*types.Named)
-		if !ok || named.Obj().Name() != "FieldRepetitionType" {
-			continue
-		}
-		// the "*" constant flows from the true side
+		// the "*" is introduced on the true side only: as a phi edge or as a string concatenation there
 		for _, blk := range fld.Blocks {
 			for _, ins := range blk.Instrs {
-				if phi, ok := ins.(*ssa.Phi); ok {
-					for i, e := range phi.Edges {
-						if k, ok := e.(*ssa.Const); ok && k.Value != nil && k.Value.Kind() == constant.String && constant.StringVal(k.Value) == "*" {
+				switch y := ins.(type) {
+				case *ssa.Phi:
+					for i, e := range y.Edges {
+						if isStar(e) {
 							pred := blk.Preds[i]
 							if pred == b.Succs[0] || b.Succs[0].Dominates(pred) {
 								okOpt = true
 							}
 						}
 					}
+				case *ssa.BinOp:
+					if y.Op == token.ADD && (isStar(y.X) || isStar(y.Y)) && (blk == b.Succs[0] || b.Succs[0].Dominates(blk)) && len(b.Succs[0].Preds) == 1 {
+						okOpt = true
+					}
+				}
+			}
+		}
+	}
+	// and nowhere else
+	for _, blk := range fld.Blocks {
+		for _, ins := range blk.Instrs {
+			if y, ok := ins.(*ssa.BinOp); ok && y.Op == token.ADD && (isStar(y.X) || isStar(y.Y)) {
+				guardedOpt := false
+				for _, b := range fld.Blocks {
+					if iff, ok := lastInstr(b).(*ssa.If); ok && isOptionalTest(iff.Cond, 0) && len(b.Succs[0].Preds) == 1 && (blk == b.Succs[0] || b.Succs[0].Dominates(blk)) {
+						guardedOpt = true
+					}
+				}
+				if !guardedOpt {
+					okOpt = false
 				}
 			}
 		}
@@ -901,7 +1041,31 @@ func laMemRead(c *Ctx, rule string) {
 				pos := u.Pos(call.Pos())
 				var bad, und []string
 				raw := 0
-				for _, ref := range *rr.Referrers() {
+				// uses of the reader, following it into helper functions of the generated package it is handed to
+				var uses []ssa.Instruction
+				seenV := map[ssa.Value]bool{}
+				var collect func(v ssa.Value, depth int)
+				collect = func(v ssa.Value, depth int) {
+					if seenV[v] || depth > 3 || v.Referrers() == nil {
+						return
+					}
+					seenV[v] = true
+					for _, ref := range *v.Referrers() {
+						if c3, ok := ref.(*ssa.Call); ok {
+							if g := c3.Call.StaticCallee(); g != nil && g.Blocks != nil && u.pkgPathOf(g) == fi.pkg {
+								for i, a := range callArgs(&c3.Call) {
+									if a == v && i < len(g.Params) {
+										collect(g.Params[i], depth+1)
+									}
+								}
+								continue
+							}
+						}
+						uses = append(uses, ref)
+					}
+				}
+				collect(rr, 0)
+				for _, ref := range uses {
 					c2, ok := ref.(*ssa.Call)
 					if !ok {
 						continue
